@@ -151,8 +151,10 @@ def run(model, col, tier):
                   f"the index is compared with GetSize()[{got_idx}]: the {dropped} dimension, the one the typing pass drops per index",
                   f"the index is compared with GetSize()[{got_idx}] but an index selects (and the typing pass drops) the {dropped} dimension: "
                   "for int[2][3] x the first index is checked against 3 and the second against ... the wrong size", OOB, size_sub or f)
-        src = unparse(find_assign(f, "arrayType")[0]) if find_assign(f, "arrayType") else unparse(size_sub) if size_sub is not None else ""
-        col.check("GetParent().GetType()" in src or (size_sub is not None and "GetParent().GetType()" in unparse(size_sub)), "R13.2",
+        from ..sem import local_env as _le132, rtext as _rt132
+
+        src = _rt132(size_sub, _le132(f)) if size_sub is not None else ""
+        col.check(f"{f.args.args[1].arg}.GetParent().GetType()" in src, "R13.2",
                   f"{OOB}::_ValidateArrayExpression accessed type", "the size comes from the type of the accessed (parent) expression",
                   f"the size comes from `{src}`, not from the accessed expression's type", OOB, f)
         # matrix: rows first, and row access yields a vector of column count
